@@ -249,10 +249,18 @@ def construct(ex, ev, node, target_name):
 def make_record(ex, ev, node, rt: TRec):
     defaults = getattr(ex.reg, "record_defaults", {}).get(rt.rname, {})
     vals = {}
+    ftypes = dict(zip(rt.fields, rt.items))
+
+    def typed(a, ft):
+        inner = ft.t if isinstance(ft, TOpt) else ft
+        if isinstance(a, (ast.List, ast.Dict)) and not getattr(a, "elts", getattr(a, "keys", [1])):
+            return ex.expr_typed(ev, a, inner)
+        return ev.expr(a)
+
     for i, a in enumerate(node.args):
-        vals[rt.fields[i]] = ev.expr(a)
+        vals[rt.fields[i]] = typed(a, ftypes[rt.fields[i]])
     for k in node.keywords:
-        vals[k.arg] = ev.expr(k.value)
+        vals[k.arg] = typed(k.value, ftypes[k.arg])
     items = []
     for fn_, ft in zip(rt.fields, rt.items):
         if fn_ in vals:
@@ -369,6 +377,17 @@ def builtin_call(ex, ev: Eval, node, fname):
         if tn in table:
             return V(BOOL, z3.BoolVal(bool(table[tn])))
         raise Unsupported(f"isinstance(_, {tn})")
+    if (fname == "next" and len(a) == 1 and isinstance(a[0], ast.Call) and isinstance(a[0].func, ast.Name)
+            and a[0].func.id == "iter" and len(a[0].args) == 1):
+        c = ev.expr(a[0].args[0])  # next(iter(X)): some member of a non-empty set / dict (order arbitrary, A6)
+        if isinstance(c.t, (TSet, TDict)):
+            kt = c.t.k
+            mem = set_mem(c) if isinstance(c.t, TSet) else dict_dom(c)
+            ev.ob("next-nonempty", (set_card(c) if isinstance(c.t, TSet) else dict_card(c)) > 0, node)
+            x = ex.new_sym(kt, "member", ev.st)
+            ev.st.pc.append(z3.Select(mem, x.z))
+            return x
+        raise Unsupported("next(iter(...)) over " + str(c.t))
     if fname == "deque" and len(a) <= 1 and not node.keywords:
         if not a:
             raise Unsupported("deque() without a declared element type")
@@ -409,7 +428,7 @@ def builtin_call(ex, ev: Eval, node, fname):
                 ev.expr(x)
             return ex.new_sym(h.t, "heap", ev.st)
         if isinstance(h.t, TList) and fname == "heappush" and len(a) == 2 and isinstance(a[0], (ast.Name, ast.Attribute)):
-            x = coerce_to(ev.expr(a[1]), h.t.elem)
+            x = fit(ex, ev, ev.expr(a[1]), h.t.elem, node)
             ex.assign(ev.st, a[0], mk_list(h.t, list_len(h) + 1, z3.Store(list_arr(h), list_len(h), x.z)), ev)
             return V(NONE, z3.BoolVal(True))
         if isinstance(h.t, TList) and fname == "heappop" and len(a) == 1 and isinstance(a[0], (ast.Name, ast.Attribute)):
@@ -443,6 +462,16 @@ def builtin_call(ex, ev: Eval, node, fname):
             ev.ob("log-domain", x.z > 0, node)
         return r
     return None
+
+
+def fit(ex, ev, v, t, node):
+    """coerce v to type t, unwrapping Optional components where t wants a value (with a not-None obligation)"""
+    if isinstance(v.t, TOpt) and not isinstance(t, TOpt) and not (isinstance(t, TU) and t.uname == "opaque"):
+        ev.ob("none-deref", z3.Not(opt_is_none(v)), node)
+        v = opt_val(v)
+    if isinstance(v.t, TTuple) and isinstance(t, TTuple) and len(v.t.items) == len(t.items) and v.t != t:
+        return mk_tuple(t, [fit(ex, ev, tuple_get(v, i), it, node).z for i, it in enumerate(t.items)])
+    return coerce_to(v, t)
 
 
 def _store_back(ex, ev, recv_node, newv):
@@ -519,7 +548,7 @@ def method_call(ex, ev: Eval, node, recv_node, meth):
         if meth == "append" and len(a) == 1:
             if ev.guard:
                 raise Unsupported("effect under short-circuit")
-            v = coerce_to(ex.expr_typed(ev, a[0], recv.t.elem), recv.t.elem)
+            v = fit(ex, ev, ex.expr_typed(ev, a[0], recv.t.elem), recv.t.elem, node)
             ch = ex._chain(recv_node)
             if ch is not None and ex._chain(a[0]) is not None and isinstance(v.t, (TList, TDict, TSet)):
                 # the container now holds the very object the argument names
@@ -561,11 +590,15 @@ def method_call(ex, ev: Eval, node, recv_node, meth):
             return V(NONE, z3.BoolVal(True))
     if isinstance(recv.t, TDict):
         if meth == "get" and len(a) in (1, 2):
-            k = coerce_to(ev.expr(a[0]), recv.t.k)
+            kv = ev.expr(a[0])
+            if isinstance(kv.t, TOpt) and not isinstance(recv.t.k, TOpt):
+                ev.ob("none-deref", z3.Not(opt_is_none(kv)), node)
+                kv = opt_val(kv)
+            k = coerce_to(kv, recv.t.k)
             has = z3.Select(dict_dom(recv), k.z)
             val = z3.Select(dict_val(recv), k.z)
             if len(a) == 2:
-                d = coerce_to(ev.expr(a[1]), recv.t.v)
+                d = coerce_to(ex.expr_typed(ev, a[1], recv.t.v), recv.t.v)
                 return V(recv.t.v, z3.If(has, val, d.z))
             return V(TOpt(recv.t.v), z3.If(has, opt_some(TOpt(recv.t.v), val).z, opt_none(TOpt(recv.t.v)).z))
         if meth == "keys" and not a:
